@@ -24,7 +24,7 @@ def main(argv):
         if tier not in ("quick", "thorough"):
             print("unknown tier %r" % tier)
             return 2
-        os.environ.setdefault("VERIF_CASE_TIMEOUT", "150" if tier == "quick" else "900")      # watchdog per executed case (vf/core.py)
+        os.environ.setdefault("VERIF_CASE_TIMEOUT", "90" if tier == "quick" else "600")      # watchdog per executed case (vf/core.py)
         seed = int(os.environ.get("VERIF_SEED", "0") or 0)
         ctx = core.Ctx(prop, tier, seed)
         ctx.clean_replays()
